@@ -18,6 +18,16 @@ CHECKS = {
             "floors 1e-3/3e-4. Rotations are steered off known finding D1 by construction; rank-deficient augmented "
             "systems are known finding D3 (counted, excluded). Under-determined tissues are skipped and counted.",
             "DESIGN.md 4/C01"),
+    "C05": ("property-based testing (Hypothesis) with a KKT optimality certificate; hook record cross-checked",
+            "Generated-input exploration: for noisy / equilibrium / fixture systems, square (inversion path) and "
+            "rectangular (fallback), static and velocity right-hand sides, three back-ends, the reported tensions "
+            "with the best non-negative multiplier must satisfy the KKT conditions of min ||Mx-b||^2, x>=0 (decides "
+            "optimality per instance), equal the unique minimiser when M has full column rank, be non-negative and "
+            "finite, and have mean one when the assembled system is consistent.",
+            "Trusted: KKT conditions (convexity), scipy.nnls only after it passes the same certificate, the "
+            "FORSYS_VERIF hook record after cross-check with an independent reconstruction. lmfit judged by a 1e-4 "
+            "relative objective gap. fix_stress is known finding D5.",
+            "DESIGN.md 4/C05"),
     "C02": ("property-based testing (Hypothesis) against closed-form tangents of exact arc/line tissues",
             "Generated-input exploration: every entry of the assembled force-balance matrix is compared with the "
             "analytic outward unit tangent on Voronoi/Moebius/lattice tissues, sub-tissues, near-axis rotations, both "
